@@ -20,6 +20,8 @@
 //!      and a wide window, and attribute settings x those options;
 //!      fields the verdict must ignore (revocation dates, entry extensions, CRL
 //!      number, names, signing times, algorithm spellings) x listing state x instants;
+//!      repeated validate_at calls on one decoded value over all pairs / triples of
+//!      (key, instant) settings (history independence); instants down to 1 ns;
 //!  (c) every single-bit flip of one library-created and two foreign messages.
 //!
 //! Reference model: the condition vector itself (valid <=> all true).
@@ -35,7 +37,7 @@ use rpki::ca::provisioning::{self, ProvisioningCms, RevocationRequest};
 use rpki::ca::publication::{self, Base64, Publish, PublishDelta, PublicationCms};
 use rpki::ca::sigmsg::SignedMessage;
 use rpki::crypto::PublicKey;
-use rpki::repository::x509::Validity;
+use rpki::repository::x509::{Time, Validity};
 use rpki_verif::engine::der::{self, Civil, SignedDataParts};
 use rpki_verif::engine::enumerate::permutations;
 use rpki_verif::engine::pki::{self, T0};
@@ -59,6 +61,12 @@ fn civil(secs: i64) -> Civil {
 }
 fn x509_time(secs: i64) -> Vec<u8> { der::time_auto(civil(secs)) }
 
+/// Evaluation instants for a window [nb, na] (whole seconds): (seconds, nanoseconds); index MID is the midpoint.
+const MID: usize = 4;
+fn window_instants(nb: i64, na: i64) -> Vec<(i64, u32)> {
+    vec![(nb - 1, 0), (nb - 1, 999_999_999), (nb, 0), (nb, 1), (nb + (na - nb) / 2, 0), (na - 1, 999_999_999), (na, 0), (na, 1), (na, 500_000_000), (na + 1, 0)]
+}
+
 //------------ verdicts ------------------------------------------------------------------
 
 #[derive(Clone, Debug, PartialEq, Eq)]
@@ -77,8 +85,12 @@ impl Verdict {
 #[derive(Clone, Copy, Debug, PartialEq, Eq)]
 enum Via { Strict, Relaxed, Publication, Provisioning }
 
-fn run(bytes: &[u8], key: &PublicKey, when: i64, via: Via) -> Verdict {
-    let t = pki::time(when);
+fn at(secs: i64, nanos: u32) -> Time { Time::new(chrono::DateTime::from_timestamp(secs, nanos).unwrap()) }
+
+fn run(bytes: &[u8], key: &PublicKey, when: i64, via: Via) -> Verdict { run_ns(bytes, key, when, 0, via) }
+
+fn run_ns(bytes: &[u8], key: &PublicKey, when: i64, nanos: u32, via: Via) -> Verdict {
+    let t = at(when, nanos);
     let r = guard(|| match via {
         Via::Strict | Via::Relaxed => match SignedMessage::decode(Bytes::copy_from_slice(bytes), via == Via::Strict) {
             Err(e) => Verdict::Decode(e.to_string()),
@@ -292,14 +304,15 @@ struct Plan {
     st_secs: i64,
     bst_secs: i64,
     sig_alg: u8,
-    digest_null: bool,
+    /// NULL parameters of the digest algorithm: bit 0 in SignedData.digestAlgorithms, bit 1 in SignerInfo.digestAlgorithm
+    digest_null: u8,
 }
 
 const ATTR_NAMES: [&str; 3] = ["ct", "md", "st"];
 
 impl Plan {
     fn base() -> Plan {
-        Plan { order: [0, 1, 2], extras: vec![], extras_first: false, st_gen: false, digest: DigestV::Ok, sig: SigV::Ok, ee: EeV::Plain, crl: CrlV::Plain, prof: ProfV::Ok, st_secs: T0 - 60, bst_secs: T0 - 60, sig_alg: 0, digest_null: false }
+        Plan { order: [0, 1, 2], extras: vec![], extras_first: false, st_gen: false, digest: DigestV::Ok, sig: SigV::Ok, ee: EeV::Plain, crl: CrlV::Plain, prof: ProfV::Ok, st_secs: T0 - 60, bst_secs: T0 - 60, sig_alg: 0, digest_null: 0 }
     }
     fn stated_ok(&self) -> bool { self.digest == DigestV::Ok && self.sig == SigV::Ok && self.ee.ok() && self.crl.ok() }
     fn all_ok(&self) -> bool { self.stated_ok() && self.prof == ProfV::Ok }
@@ -422,14 +435,14 @@ fn wrap(fx: &Fx, p: &Plan, ps: &Presigned, sid_other: bool, ee: &[u8], crl: &[u8
     let sid = if sid_other || p.prof == ProfV::SidOther || p.prof == ProfV::SkiExtOther { fx.s.key(K_EE2).ski.to_vec() } else { fx.s.key(K_EE).ski.to_vec() };
     der::signed_data(&SignedDataParts {
         version: 3,
-        digest_alg_set: der::set_unsorted(&[der::alg_sha256(p.digest_null)]),
+        digest_alg_set: der::set_unsorted(&[der::alg_sha256(p.digest_null & 1 != 0)]),
         econtent_type: if p.prof == ProfV::CtBothOther { der::OID_CT_ROA.to_vec() } else { der::OID_CT_PROTOCOL.to_vec() },
         econtent: fx.content.clone(),
         certificates: vec![ee.to_vec()],
         crls: vec![crl.to_vec()],
         si_version: 3,
         sid,
-        si_digest_alg: der::alg_sha256(p.digest_null),
+        si_digest_alg: der::alg_sha256(p.digest_null & 2 != 0),
         signed_attrs: ps.attrs.clone(),
         sig_alg: match p.sig_alg { 0 => der::alg_rsa_encryption(), 1 => der::alg_sha256_with_rsa(), 2 => der::seq(&[der::oid(der::OID_RSA_ENCRYPTION)]), _ => der::seq(&[der::oid(der::OID_SHA256_WITH_RSA)]) },
         signature: ps.signature.clone(),
@@ -660,7 +673,7 @@ fn main() {
     //--- (a1) SignedMessage::create --------------------------------------------------------------
     {
         let sp = ctx.space("created.signed_message",
-            "SignedMessage::create for content sizes {0,1,1000,100000} x all validity windows (nb <= na) over 8 instants around the UTCTime/GeneralizedTime switches (1949/1950, 2049/2050), the epoch, T0, T0+600 and year 9999 x 5 evaluation instants (nb-1s, nb, midpoint, na, na+1s) x 3 keys x {as created, re-decoded strict, re-decoded relaxed}: validates <=> signing key and nb <= t <= na; non-trivial = evaluations at a window boundary or under another key");
+            "SignedMessage::create for content sizes {0,1,1000,100000} x all validity windows (nb <= na) over 8 instants around the UTCTime/GeneralizedTime switches (1949/1950, 2049/2050), the epoch, T0, T0+600 and year 9999 x 10 evaluation instants (nb-1s, nb-1ns, nb, nb+1ns, midpoint, na-1ns, na, na+1ns, na+0.5s, na+1s) x 3 keys x {as created, re-decoded strict, re-decoded relaxed}: validates <=> signing key and nb <= t <= na; non-trivial = evaluations at a window boundary or under another key");
         let dom: Vec<i64> = vec![-631_152_001, -631_152_000, 0, T0, T0 + 600, 2_524_607_999, 2_524_608_000, 253_402_300_799];
         let sizes: Vec<usize> = vec![0, 1, 1000, 100_000];
         let mut jobs = Vec::new();
@@ -677,18 +690,18 @@ fn main() {
                 Err(p) => { fail("C10.no_panic", w("create"), p); return }
             };
             let bytes = match guard(|| msg.to_captured().into_bytes()) { Ok(b) => b, Err(p) => { fail("C10.no_panic", w("encode"), p); return } };
-            for (ti, t) in [nb - 1, nb, nb + (na - nb) / 2, na, na + 1].into_iter().enumerate() {
+            for (ti, (t, ns)) in window_instants(nb, na).into_iter().enumerate() {
                 for (k, kname) in keys {
-                    let want = k == K_PEER && nb <= t && t <= na;
+                    let want = k == K_PEER && (nb, 0) <= (t, ns) && (t, ns) <= (na, 0);
                     let key = s.public(k);
-                    let direct = match guard(|| msg.validate_at(&key, pki::time(t))) { Ok(Ok(())) => Verdict::Accept, Ok(Err(e)) => Verdict::Invalid(e.to_string()), Err(p) => Verdict::Panic(p) };
-                    let results = [("as-created", direct), ("strict", run(&bytes, &key, t, Via::Strict)), ("relaxed", run(&bytes, &key, t, Via::Relaxed))];
+                    let direct = match guard(|| msg.validate_at(&key, at(t, ns))) { Ok(Ok(())) => Verdict::Accept, Ok(Err(e)) => Verdict::Invalid(e.to_string()), Err(p) => Verdict::Panic(p) };
+                    let results = [("as-created", direct), ("strict", run_ns(&bytes, &key, t, ns, Via::Strict)), ("relaxed", run_ns(&bytes, &key, t, ns, Via::Relaxed))];
                     for (how, v) in results {
                         sp.eval();
                         *oc.lock().unwrap().entry(v.class()).or_insert(0) += 1;
-                        if ti != 2 || k != K_PEER { *nt.lock().unwrap() += 1 }
+                        if ti != MID || k != K_PEER { *nt.lock().unwrap() += 1 }
                         let (oa, or) = ("C10.created.valid_within", if k != K_PEER { "C10.created.other_key" } else { "C10.created.invalid_outside" });
-                        expect(&ctx, oa, or, want, &v, || w(&format!("t={t} key={kname} {how}")));
+                        expect(&ctx, oa, or, want, &v, || w(&format!("t={t}s+{ns}ns key={kname} {how}")));
                     }
                 }
             }
@@ -697,13 +710,13 @@ fn main() {
         sp.nontrivial(*nt.lock().unwrap());
         sp.set("instants", serde_json::json!(dom));
         sp.sample_str(|| "SignedMessage::create content=1000B window=[2524607999,2524608000] t=2524608000 key=signing strict -> validated".to_string());
-        sp.done(true, "36 windows x 4 sizes x 5 instants x 3 keys x 3 routes");
+        sp.done(true, "36 windows x 4 sizes x 10 instants x 3 keys x 3 routes");
     }
 
     //--- (a2) ProvisioningCms::create / PublicationCms::create ---------------------------------------
     {
         let sp = ctx.space("created.protocol_cms",
-            "ProvisioningCms::create for {list, revoke} and PublicationCms::create for {list query, publish of 1 / 700 / 75000 octets} (XML content from ~150 to ~100000 octets); window read back from the embedded EE certificate; 5 instants x 3 keys through the typed decoder and SignedMessage::decode strict/relaxed; EE and CRL windows must coincide and span 10 minutes; non-trivial = evaluations at a boundary or under another key");
+            "ProvisioningCms::create for {list, revoke} and PublicationCms::create for {list query, publish of 1 / 700 / 75000 octets} (XML content from ~150 to ~100000 octets); window read back from the embedded EE certificate; 10 instants (down to 1 ns around both bounds) x 3 keys through the typed decoder and SignedMessage::decode strict/relaxed; EE and CRL windows must coincide and span 10 minutes; non-trivial = evaluations at a boundary or under another key");
         let sender = SenderHandle::from_str("child").unwrap();
         let recipient = RecipientHandle::from_str("parent").unwrap();
         let mut made: Vec<(String, Via, Vec<u8>, usize)> = Vec::new();
@@ -741,22 +754,22 @@ fn main() {
             if (nb, na) != (tu, nu) || na - nb != 600 {
                 fail("C10.created.window", nm.clone(), format!("EE window [{nb},{na}] (relative: {} s), CRL window [{tu},{nu}]", na - nb));
             }
-            for (ti, t) in [nb - 1, nb, nb + (na - nb) / 2, na, na + 1].into_iter().enumerate() {
+            for (ti, (t, ns)) in window_instants(nb, na).into_iter().enumerate() {
                 for (k, kname) in keys {
-                    let want = k == K_PEER && nb <= t && t <= na;
+                    let want = k == K_PEER && (nb, 0) <= (t, ns) && (t, ns) <= (na, 0);
                     for v in [*via, Via::Strict, Via::Relaxed] {
-                        let r = run(bytes, &s.public(k), t, v);
+                        let r = run_ns(bytes, &s.public(k), t, ns, v);
                         sp.eval(); sp.outcome(r.class());
-                        if ti != 2 || k != K_PEER { sp.nontrivial(1) }
+                        if ti != MID || k != K_PEER { sp.nontrivial(1) }
                         let or = if k != K_PEER { "C10.created.other_key" } else { "C10.created.invalid_outside" };
-                        expect(&ctx, "C10.created.valid_within", or, want, &r, || format!("{nm} ({n}B XML) t=notBefore{:+}s key={kname} via={v:?}", t - nb));
+                        expect(&ctx, "C10.created.valid_within", or, want, &r, || format!("{nm} ({n}B XML) t=notBefore{:+}s+{ns}ns key={kname} via={v:?}", t - nb));
                     }
                 }
             }
         }
         sp.set("content_sizes", serde_json::json!(sizes));
         sp.sample_str(|| sizes.join("; "));
-        sp.done(true, "6 messages x 5 instants x 3 keys x 3 routes");
+        sp.done(true, "6 messages x 10 instants x 3 keys x 3 routes");
     }
 
     //--- (b1) foreign: benign variations must validate -------------------------------------------------
@@ -913,7 +926,7 @@ fn main() {
     //--- (b3) foreign: product of composable spellings and violations ----------------------------------------------
     {
         let sp = ctx.space("foreign.product",
-            "EE certificate options {AKI right/absent/wrong, basicConstraints absent/empty/cA, critical keyUsage, 20-octet serial, signed by peer/other key, window T0+-300 / T0+-1000 s, SKI extension right/other} (288) and CRL options {AKI right/absent/wrong, CRL number, unknown extensions, 8 revoked-list shapes (4 without, 4 with the EE serial), signed by peer/other key, window T0+-300 / T0+-1000 s} (384), benign spellings and violations alike: quick = (all EE x CRL base-and-single-deviations) + (EE base-and-single-deviations x all CRL), thorough = all EE x all CRL; each message evaluated at T0 + {-1001,-1000,-301,-300,0,300,301,1000,1001} s (inside one window and outside the other included), strict and relaxed. Second part: 6 orders x 3 extras settings x 2 time forms x {no, each digest, each signature, sid, content-type violation} x EE and CRL base-and-single-deviations at T0. Model: validates <=> every condition holds (signature, digest; EE signed by peer, not a CA, window contains t; CRL signed by peer, window contains t, EE serial not listed; profile: key identifiers, sid, content type); non-trivial = cases where at least one condition is violated");
+            "EE certificate options {AKI right/absent/wrong, basicConstraints absent/empty/cA, critical keyUsage, 20-octet serial, signed by peer/other key, window T0+-300 / T0+-1000 s, SKI extension right/other} (288) and CRL options {AKI right/absent/wrong, CRL number, unknown extensions, 8 revoked-list shapes (4 without, 4 with the EE serial), signed by peer/other key, window T0+-300 / T0+-1000 s} (384), benign spellings and violations alike: quick = (all EE x CRL base-and-single-deviations) + (EE base-and-single-deviations x all CRL), thorough = all EE x all CRL; each message evaluated at T0 + {-1001,-1000,-301,-300,0,300,301,1000,1001} s (inside one window and outside the other included), strict and relaxed. Second part: 6 orders x 3 extras settings x 2 time forms x {no, each digest, each signature, sid, content-type violation} x EE and CRL base-and-single-deviations at T0. Third part: 10 benign EE x 10 benign CRL spellings (each window narrow or wide) x 20 instants at -1 ns, 0, +1 ns, +0.5 s, +0.999999999 s around each of the four window bounds, compared exactly. Model: validates <=> every condition holds (signature, digest; EE signed by peer, not a CA, window contains t; CRL signed by peer, window contains t, EE serial not listed; profile: key identifiers, sid, content type); non-trivial = cases where at least one condition is violated");
         let offsets: [i64; 9] = [-1001, -1000, -301, -300, 0, 300, 301, 1000, 1001];
         let (ee_all, crl_all, ee_red, crl_red) = (ee_full(), crl_full(), ee_reduced(), crl_reduced());
         let ee_certs: BTreeMap<EeO, Vec<u8>> = ee_all.par_iter().map(|o| (*o, ee_from(s, o))).collect();
@@ -985,20 +998,46 @@ fn main() {
             *nt.lock().unwrap() += n;
             let mut g = oc.lock().unwrap(); for (k, v) in local { *g.entry(k).or_insert(0) += v }
         });
+        // third part: instants a fraction of a second around every window bound, one window at a time narrower than the other
+        let ns_menu: [(i64, u32); 5] = [(-1, 999_999_999), (0, 0), (0, 1), (0, 500_000_000), (0, 999_999_999)];
+        let mut sub: Vec<(i64, u32)> = Vec::new();
+        for b in [-WIDE, -NARROW, NARROW, WIDE] { for (ds, ns) in ns_menu { sub.push((b + ds, ns)) } }
+        let within_ns = |wide: bool, off: i64, ns: u32| { let w = if wide { WIDE } else { NARROW }; (-w, 0) <= (off, ns) && (off, ns) <= (w, 0) };
+        let mut ee_sub: Vec<EeO> = Vec::new();
+        for wide in [false, true] { for b in [EE_BASE, EeO { aki: 1, ..EE_BASE }, EeO { basic: 1, ..EE_BASE }, EeO { key_usage: true, ..EE_BASE }, EeO { big_serial: true, ..EE_BASE }] { ee_sub.push(EeO { wide, ..b }) } }
+        let mut crl_sub: Vec<CrlO> = Vec::new();
+        for wide in [false, true] { for b in [CRL_BASE, CrlO { aki: 1, ..CRL_BASE }, CrlO { number: false, ..CRL_BASE }, CrlO { unknown_ext: true, ..CRL_BASE }, CrlO { revoked: 2, ..CRL_BASE }] { crl_sub.push(CrlO { wide, ..b }) } }
+        let sub_pairs: Vec<(EeO, CrlO)> = ee_sub.iter().flat_map(|e| crl_sub.iter().map(move |c| (*e, *c))).collect();
+        sub_pairs.par_iter().for_each(|(e, c)| {
+            let bytes = wrap(&fx, &base, &base_signed, false, &ee_certs[e], &crls[&(*c, e.big_serial)]);
+            let mut local: BTreeMap<&'static str, u64> = BTreeMap::new();
+            let mut n = 0u64;
+            for &(off, ns) in &sub { for via in [Via::Strict, Via::Relaxed] {
+                let v = run_ns(&bytes, &fx.peer, T0 + off, ns, via);
+                *local.entry(v.class()).or_insert(0) += 1;
+                let want = within_ns(e.wide, off, ns) && within_ns(c.wide, off, ns);
+                if !want { n += 1 }
+                expect(&ctx, "C10.foreign.accept", "C10.foreign.product.reject", want, &v, || format!("foreign order=ct,md,st extras=[] {} {} via={via:?} when=T0{off:+}s+{ns}ns (narrow=T0+-300s wide=T0+-1000s, compared exactly)", show_ee(e), show_crl(c)));
+            }}
+            sp.evals((sub.len() * 2) as u64);
+            *nt.lock().unwrap() += n;
+            let mut g = oc.lock().unwrap(); for (k, v) in local { *g.entry(k).or_insert(0) += v }
+        });
         sp.merge_outcomes(&oc.lock().unwrap());
         sp.nontrivial(*nt.lock().unwrap());
+        sp.set("sub_second_instants", serde_json::json!(sub.iter().map(|(o, n)| format!("T0{o:+}s+{n}ns")).collect::<Vec<_>>()));
         sp.set("ee_option_sets", serde_json::json!(ee_all.len()));
         sp.set("crl_option_sets", serde_json::json!(crl_all.len()));
         sp.set("certificate_crl_pairs", serde_json::json!(pairs.len()));
         sp.set("attribute_settings", serde_json::json!(aplans.len()));
         sp.sample_str(|| format!("foreign order=ct,md,st extras=[] {} {} via=Strict when=T0+301s -> rejected (CRL stale, EE certificate still valid)", show_ee(&EeO { wide: true, ..EE_BASE }), show_crl(&CrlO { aki: 1, ..CRL_BASE })));
-        sp.done(true, &format!("{} (EE, CRL) option pairs x 9 instants x 2 decoders; {} attribute settings x {} x {} reduced menus x 2 decoders", pairs.len(), aplans.len(), ee_red.len(), crl_red.len()));
+        sp.done(true, &format!("{} (EE, CRL) option pairs x 9 instants x 2 decoders; {} attribute settings x {} x {} reduced menus x 2 decoders; {} benign (EE, CRL) pairs x {} sub-second instants x 2 decoders", pairs.len(), aplans.len(), ee_red.len(), crl_red.len(), sub_pairs.len(), sub.len()));
     }
 
     //--- (b4) foreign: fields the acceptance predicate must ignore -------------------------------------------------
     {
         let sp = ctx.space("foreign.ignored",
-            "fields that must not influence the verdict, varied against listing state, windows and evaluation instants. Part A: revocation date of the entry listing the EE serial x revocation date of all other entries, each in {long before thisUpdate, = thisUpdate, T0+150 s (inside the window, after the earlier instants), = nextUpdate, a day after nextUpdate, year 2052 (GeneralizedTime), year 1949 (GeneralizedTime)} x revoked-list shape {others, others+ext, ee-only, ee-first, ee-middle, ee-last, ee-only with a leading-zero INTEGER} x CRL window narrow/wide x EE window narrow/wide x 9 instants x strict/relaxed. Part B: base and every single deviation (thorough: every pair) of {entry extensions 2, CRL number value 3, CRL issuer name 2, EE issuer name 2, EE subject name 2, signing-time value 3 (future, epoch, 2052), binary-signing-time value 2, signature-algorithm spelling 3, digest-algorithm NULL} x shape {empty, others, others+ext, ee-only, ee-middle, ee-last} x CRL AKI right/absent x the 10 EE base-and-single-deviation options x 9 instants x 2 decoders. Model: exactly the product-space model, blind to all of these fields (the leading-zero spelling may be refused at decode but must never validate); non-trivial = cases in which a listed EE serial carries a revocation date after the evaluation instant, or an ignored field deviates");
+            "fields that must not influence the verdict, varied against listing state, windows and evaluation instants. Part A: revocation date of the entry listing the EE serial x revocation date of all other entries, each in {long before thisUpdate, = thisUpdate, T0+150 s (inside the window, after the earlier instants), = nextUpdate, a day after nextUpdate, year 2052 (GeneralizedTime), year 1949 (GeneralizedTime)} x revoked-list shape {others, others+ext, ee-only, ee-first, ee-middle, ee-last, ee-only with a leading-zero INTEGER} x CRL window narrow/wide x EE window narrow/wide x 9 instants x strict/relaxed. Part B: base and every single deviation (thorough: every pair) of {entry extensions 2, CRL number value 3, CRL issuer name 2, EE issuer name 2, EE subject name 2, signing-time value 3 (future, epoch, 2052), binary-signing-time value 2, signature-algorithm spelling 3, digest-algorithm NULL parameters in SignedData only / SignerInfo only / both} x shape {empty, others, others+ext, ee-only, ee-middle, ee-last} x CRL AKI right/absent x the 10 EE base-and-single-deviation options x 9 instants x 2 decoders. Model: exactly the product-space model, blind to all of these fields (the leading-zero spelling may be refused at decode but must never validate); non-trivial = cases in which a listed EE serial carries a revocation date after the evaluation instant, or an ignored field deviates");
         let offsets: [i64; 9] = [-1001, -1000, -301, -300, 0, 300, 301, 1000, 1001];
         let judge = |e: &EeO, c: &CrlO, off: i64| -> (bool, bool) {
             let stated = !e.other_key && e.basic != 2 && within(e.wide, off) && !c.other_key && within(c.wide, off) && c.revoked < 4;
@@ -1044,8 +1083,8 @@ fn main() {
         });
         // Part B
         #[derive(Clone, Copy, Debug, PartialEq, Eq)]
-        struct Ign { crl: CrlIgn, ee_issuer: u8, ee_subject: u8, st: u8, bst: u8, sig_alg: u8, digest_null: bool }
-        let ign0 = Ign { crl: CrlIgn::DEFAULT, ee_issuer: 0, ee_subject: 0, st: 0, bst: 0, sig_alg: 0, digest_null: false };
+        struct Ign { crl: CrlIgn, ee_issuer: u8, ee_subject: u8, st: u8, bst: u8, sig_alg: u8, digest_null: u8 }
+        let ign0 = Ign { crl: CrlIgn::DEFAULT, ee_issuer: 0, ee_subject: 0, st: 0, bst: 0, sig_alg: 0, digest_null: 0 };
         // (field number, setter)
         let mut devs: Vec<(u8, Box<dyn Fn(&mut Ign) + Sync>)> = Vec::new();
         for v in 1..3u8 { devs.push((0, Box::new(move |i: &mut Ign| i.crl.entry_ext = v))) }
@@ -1056,7 +1095,7 @@ fn main() {
         for v in 1..4u8 { devs.push((5, Box::new(move |i: &mut Ign| i.st = v))) }
         for v in 1..3u8 { devs.push((6, Box::new(move |i: &mut Ign| i.bst = v))) }
         for v in 1..4u8 { devs.push((7, Box::new(move |i: &mut Ign| i.sig_alg = v))) }
-        devs.push((8, Box::new(|i: &mut Ign| i.digest_null = true)));
+        for v in 1..4u8 { devs.push((8, Box::new(move |i: &mut Ign| i.digest_null = v))) }
         let mut igns: Vec<Ign> = vec![ign0];
         for (_, f) in &devs { let mut i = ign0; f(&mut i); igns.push(i) }
         if thorough {
@@ -1098,6 +1137,91 @@ fn main() {
         sp.set("ignored_field_settings", serde_json::json!(igns.len()));
         sp.sample_str(|| format!("{} ee-entry-date=2 (T0+150s) when=T0-300s -> rejected: the EE serial is listed, whatever the entry's date", show_crl(&CrlO { revoked: 6, ..CRL_BASE })));
         sp.done(true, &format!("{} dated CRLs x 2 EE windows x 9 instants x 2 decoders; {} ignored-field settings x 6 shapes x 2 x 10 EE options x 9 instants x 2 decoders", a_jobs.len(), igns.len()));
+    }
+
+    //--- (b5) history independence: repeated validation of one decoded value -------------------------------------------
+    {
+        let sp = ctx.space("history.independence",
+            "16 foreign messages (EE AKI right/absent x CRL AKI right/absent x {EE narrow + CRL wide, EE wide + CRL narrow} x revoked list {empty, lists the EE}) and one library-created message; each decoded ONCE (SignedMessage strict, relaxed, PublicationCms; the created message also as created) and validate_at called on that same value over all ordered pairs and triples of the 6 settings {peer key, other key} x {T0, T0+301 s, T0-1001 s}: every verdict must equal that of a freshly decoded value under the same setting, which must equal the model; non-trivial = steps that follow a step with a different verdict");
+        let settings: Vec<(usize, i64)> = [K_PEER, K_OTHER].into_iter().flat_map(|k| [0i64, 301, -1001].into_iter().map(move |o| (k, o))).collect();
+        let mut seqs: Vec<Vec<usize>> = Vec::new();
+        for a in 0..settings.len() { for b in 0..settings.len() { seqs.push(vec![a, b]); for c in 0..settings.len() { seqs.push(vec![a, b, c]) } } }
+        // (label, bytes, model per setting)
+        let mut msgs: Vec<(String, Vec<u8>, Vec<bool>)> = Vec::new();
+        let base = Plan::base();
+        let ps = presign(&fx, &base);
+        for eaki in [0u8, 1] { for caki in [0u8, 1] { for ee_wide in [false, true] { for revoked in [0u8, 4] {
+            let e = EeO { aki: eaki, wide: ee_wide, ..EE_BASE };
+            let c = CrlO { aki: caki, wide: !ee_wide, revoked, ..CRL_BASE };
+            let bytes = wrap(&fx, &base, &ps, false, &ee_from(s, &e), &crl_from(s, &c, false));
+            let model = settings.iter().map(|&(k, off)| k == K_PEER && within(e.wide, off) && within(c.wide, off) && revoked < 4).collect();
+            msgs.push((format!("foreign {} {}", show_ee(&e), show_crl(&c)), bytes, model));
+        }}}}
+        let created = guard(|| SignedMessage::create(Bytes::from(fx.content.clone()), Validity::new(pki::time(T0 - NARROW), pki::time(T0 + NARROW)), &s.kid(K_PEER), s));
+        let created = match created { Ok(Ok(m)) => Some(m), Ok(Err(e)) => { fail("C10.created.valid_within", "history seed", format!("create failed: {e}")); None } Err(p) => { fail("C10.no_panic", "history seed", p); None } };
+        if let Some(m) = &created {
+            let model = settings.iter().map(|&(k, off)| k == K_PEER && within(false, off)).collect();
+            msgs.push(("library-created window=T0+-300s".to_string(), m.to_captured().into_bytes().to_vec(), model));
+        }
+        enum Dec { Msg(SignedMessage), Pub(PublicationCms) }
+        let oc: Mutex<BTreeMap<&'static str, u64>> = Mutex::new(BTreeMap::new());
+        let show = |si: usize| format!("({}, T0{:+}s)", if settings[si].0 == K_PEER { "peer key" } else { "other key" }, settings[si].1);
+        msgs.par_iter().enumerate().for_each(|(mi, (label, bytes, model))| {
+            let mut routes: Vec<&str> = vec!["strict", "relaxed", "publication-cms"];
+            if mi == msgs.len() - 1 && created.is_some() { routes.push("as-created") }
+            for route in routes {
+                let decode = || -> Option<Dec> {
+                    match route {
+                        "strict" => SignedMessage::decode(Bytes::copy_from_slice(bytes), true).ok().map(Dec::Msg),
+                        "relaxed" => SignedMessage::decode(Bytes::copy_from_slice(bytes), false).ok().map(Dec::Msg),
+                        "publication-cms" => PublicationCms::decode(bytes).ok().map(Dec::Pub),
+                        _ => created.clone().map(Dec::Msg),
+                    }
+                };
+                let step = |d: &Dec, si: usize| -> Result<bool, String> {
+                    let key = s.public(settings[si].0);
+                    let t = pki::time(T0 + settings[si].1);
+                    guard(|| match d { Dec::Msg(m) => m.validate_at(&key, t).is_ok(), Dec::Pub(m) => m.validate_at(&key, t).is_ok() })
+                };
+                let mut local: BTreeMap<&'static str, u64> = BTreeMap::new();
+                let mut fresh = Vec::new();
+                let mut ok = true;
+                for si in 0..settings.len() {
+                    let Some(d) = decode() else { fail("C10.history.fresh", format!("{label} route={route}"), "valid message does not decode"); ok = false; break };
+                    sp.eval();
+                    match step(&d, si) {
+                        Err(pn) => { fail("C10.no_panic", format!("{label} route={route} fresh {}", show(si)), pn); fresh.push(false) }
+                        Ok(a) => {
+                            *local.entry(if a { "validated" } else { "rejected" }).or_insert(0) += 1;
+                            if a != model[si] { fail("C10.history.fresh", format!("{label} route={route} fresh {}", show(si)), format!("validated={a}, model says {}", model[si])) }
+                            fresh.push(a)
+                        }
+                    }
+                }
+                if !ok { continue }
+                let Some(shared) = decode() else { continue };
+                for sq in &seqs {
+                    let mut prev: Option<bool> = None;
+                    for (pos, &si) in sq.iter().enumerate() {
+                        sp.eval();
+                        let a = match step(&shared, si) { Ok(a) => a, Err(pn) => { fail("C10.no_panic", format!("{label} route={route} sequence {}", sq.iter().map(|&i| show(i)).collect::<Vec<_>>().join(" -> ")), pn); break } };
+                        *local.entry(if a { "validated" } else { "rejected" }).or_insert(0) += 1;
+                        if prev.is_some() && prev != Some(fresh[si]) { sp.nontrivial(1) }
+                        if a != fresh[si] {
+                            fail("C10.history.independent", format!("{label} route={route} same decoded value, sequence {} (step {})", sq.iter().map(|&i| show(i)).collect::<Vec<_>>().join(" -> "), pos + 1),
+                                format!("step {} gave validated={a}, a freshly decoded value gives validated={}", pos + 1, fresh[si]));
+                        }
+                        prev = Some(a);
+                    }
+                }
+                let mut g = oc.lock().unwrap(); for (k, v) in local { *g.entry(k).or_insert(0) += v }
+            }
+        });
+        sp.merge_outcomes(&oc.lock().unwrap());
+        sp.set("messages", serde_json::json!(msgs.len()));
+        sp.set("sequences_per_value", serde_json::json!(seqs.len()));
+        sp.sample_str(|| "foreign ee{aki=absent ...} crl{aki=absent ...} sequence (peer key, T0+0s) -> (other key, T0+0s): validated, rejected".to_string());
+        sp.done(true, &format!("{} messages x 3-4 decoded values x {} sequences (all ordered pairs and triples of 6 settings)", msgs.len(), seqs.len()));
     }
 
     //--- (c) every single-bit flip -------------------------------------------------------------------------------
